@@ -4,6 +4,7 @@ import (
 	"bytes"
 	"fmt"
 	"math/rand"
+	"os"
 	"regexp"
 	"regexp/syntax"
 	"strings"
@@ -144,6 +145,35 @@ func oracleC04Styled(p *Pair, env *Env, style string, a [][]byte) *Failure {
 	return nil
 }
 
+// the configuration file is the one named by -f / --configuration (relative to regex-assembly), toolchain.yaml by
+// default, and a name that does not exist means no patterns. args: cfg A x6, cfg B x6, program
+func oracleC04CfgFlag(p *Pair, env *Env, a [][]byte) *Failure {
+	cfgA, cfgB, prog := a[0:6], a[6:12], a[12]
+	none := [][]byte{{}, {}, {}, {}, {}, {}}
+	sb := mkSandbox(env)
+	defer os.RemoveAll(sb)
+	t := Tree{"regex-assembly/include/": nil, "regex-assembly/exclude/": nil,
+		"regex-assembly/toolchain.yaml": []byte(toolchainYaml(cfgA)), "regex-assembly/other.yaml": []byte(toolchainYaml(cfgB)), "conf/third.yaml": []byte(toolchainYaml(cfgB))}
+	_ = t.write(sb)
+	for _, v := range []struct {
+		flags []string
+		cfg   [][]byte
+	}{{nil, cfgA}, {[]string{"-f", "other.yaml"}, cfgB}, {[]string{"--configuration", "other.yaml"}, cfgB}, {[]string{"-f", "../conf/third.yaml"}, cfgB},
+		{[]string{"-f", "toolchain.yaml"}, cfgA}, {[]string{"-f", "nosuch.yaml"}, none}} {
+		want := p.Impl(Op{"gen.run", append(append([][]byte{}, v.cfg...), prog)}, env.timeout)
+		if want.Status != "ok" {
+			continue
+		}
+		args := append(append([]string{"-l", "disabled"}, v.flags...), "regex", "generate", "-")
+		c := runCLI(env, sb, prog, args...)
+		if c.exit != 0 || !bytes.Equal(c.stdout, want.Out[0]) {
+			return &Failure{What: "generate does not use the patterns of the configuration file it was pointed to",
+				Detail: fmt.Sprintf("flags %v\nprogram %q\nexpected (patterns %q) %q\nbinary exit %d %q", v.flags, prog, v.cfg, want.Out[0], c.exit, c.stdout)}
+		}
+	}
+	return nil
+}
+
 func genC04(r *rand.Rand, tier string, env *Env) []Case {
 	n := 300
 	if tier == "thorough" {
@@ -224,10 +254,28 @@ func genC04(r *rand.Rand, tier string, env *Env) []Case {
 		margs := append([][]byte{[]byte(style), []byte(shell), []byte(w), []byte(pick(r, []string{"alone", "mixed", "nested"}))}, cb...)
 		cases = append(cases, Case{Kind: "yaml-style:" + style, Ops: []Op{{"gen.runYaml", args}}, Oracles: []Op{{"c04.memberYaml", margs}}})
 	}
+	// which file is the configuration file: -f / --configuration, default, missing
+	nF := 4
+	if tier == "thorough" {
+		nF = 40
+	}
+	for i := 0; i < nF; i++ {
+		var ab [][]byte
+		ca, cb := pick(r, cfgMenu), pick(r, cfgMenu)
+		for _, c := range ca {
+			ab = append(ab, []byte(c))
+		}
+		for _, c := range cb {
+			ab = append(ab, []byte(c))
+		}
+		prog := "##!> cmdline " + pick(r, []string{"unix", "windows"}) + "\n" + genCmdWord(r) + "\nls@\ncat~\n##!<\n"
+		cases = append(cases, Case{Kind: "configuration-flag", Oracles: []Op{{"c04.cfgflag", append(ab, []byte(prog))}}})
+	}
 	return cases
 }
 
 func init() {
+	oracles["c04.cfgflag"] = oracleC04CfgFlag
 	oracles["c04.member"] = oracleC04
 	oracles["c04.memberYaml"] = oracleC04Yaml
 	// language equality with the plain reading; failures that fall under a finding recorded for C01 (engine
